@@ -11,7 +11,9 @@ import time
 
 REPO = os.environ.get('VERIF_REPO', '/repo')
 WORK = os.environ.get('VERIF_WORK', '/verif/.work')
-MIR_TARGET = os.path.join(WORK, 'mir-target')
+def mir_target(crate):
+    # one target dir per crate: re-emitting one crate must not dirty the others' fingerprints
+    return os.path.join(WORK, f'mir-target-{crate}')
 
 RUSTC_FLAGS = ['--emit=mir', '-Zmir-opt-level=2', '-Zinline-mir=no',
                '-C', 'debug-assertions=off', '-C', 'overflow-checks=on']
@@ -22,14 +24,14 @@ def emit(crate, log=None):
     t0 = time.time()
     env = dict(os.environ, CARGO_NET_OFFLINE='true')
     env.pop('RUSTFLAGS', None)
-    cmd = ['cargo', '+nightly', 'rustc', '--offline', '-p', crate, '--lib', '--target-dir', MIR_TARGET, '--'] + RUSTC_FLAGS
+    cmd = ['cargo', '+nightly', 'rustc', '--offline', '-p', crate, '--lib', '--target-dir', mir_target(crate), '--'] + RUSTC_FLAGS
     r = subprocess.run(cmd, cwd=REPO, env=env, stdout=subprocess.PIPE, stderr=subprocess.STDOUT, text=True)
     if log:
         with open(log, 'a') as f:
             f.write('$ ' + ' '.join(cmd) + '\n' + r.stdout + '\n')
     if r.returncode != 0:
         raise RuntimeError(f'MIR emission failed for {crate}:\n{r.stdout[-3000:]}')
-    files = glob.glob(os.path.join(MIR_TARGET, 'debug', 'deps', f'{crate}-*.mir'))
+    files = glob.glob(os.path.join(mir_target(crate), 'debug', 'deps', f'{crate}-*.mir'))
     if not files:
         raise RuntimeError(f'no .mir produced for {crate}')
     files.sort(key=os.path.getmtime)
